@@ -90,8 +90,19 @@ impl<F: Read + Write + Seek> Stream<F> {
     pub fn set_len(&mut self, size: u64) -> io::Result<()> {
         if size != self.total_len {
             let new_position = self.current_position().min(size);
-            self.flush_changes()?;
             let minialloc = self.minialloc()?;
+            // The FAT cannot number more than MAX_REGULAR_SECTOR sectors, so
+            // no stream can be longer than that many sectors.
+            let max_len = consts::MAX_REGULAR_SECTOR as u64
+                * minialloc.read().unwrap().version().sector_len() as u64;
+            if size > max_len {
+                invalid_input!(
+                    "Cannot resize stream to {} bytes (maximum is {} bytes)",
+                    size,
+                    max_len
+                );
+            }
+            self.flush_changes()?;
             resize_stream(
                 &mut minialloc.write().unwrap(),
                 self.stream_id,
